@@ -76,6 +76,22 @@ def materialize(spec: dict[str, Any]) -> dict[str, Any]:
             elif name.startswith("slow_hello"):
                 d = float(name.split(":")[1])
                 handlers["HelloRequest"] = lambda c, m, d=d: c.send("HelloResponse", _delay=d, api_version_major=1, api_version_minor=10, name="dev", server_info="slow")
+            elif name.startswith("device_info_then:"):
+                # the device answers the device-info request and, in the same write, says goodbye / hangs up / sends garbage
+                what = name.split(":")[1]
+
+                def dinfo_then(c: Any, m: Any, what: str = what) -> None:
+                    c.outbox = []
+                    c.send("DeviceInfoResponse", name="dev", mac_address="AA:BB:CC:DD:EE:FF")
+                    if what == "bye":
+                        c.send("DisconnectRequest")
+                    elif what == "garbage":
+                        c.send_raw(b"\x42\x42\x42")
+                    else:
+                        c.eof(None)
+                    out, c.outbox = c.outbox, None
+                    c.deliver_items(out, 0.001)
+                handlers["DeviceInfoRequest"] = dinfo_then
             elif name == "no_disconnect_answer":
                 handlers["DisconnectRequest"] = lambda c, m: None
             elif name == "slow_disconnect":
@@ -694,6 +710,39 @@ def high_water_sweep(ctx: Ctx, prop: str) -> None:
                     o = run_spec(spec)
                     ctx.res.count(f"workload/high-water/{'library refused to queue' if o.stall.get('refused') else 'filled'}")
                     record(ctx, prop, o, "high-water")
+
+
+def hello_content_sweep(ctx: Ctx, prop: str) -> None:
+    """The CONTENT of the device's own answers steers nothing the lifecycle properties say: a hello without a name (old firmware), with or without an
+    expected name configured; API minor versions on either side of the client's thresholds and beyond what it knows; a device that reports deep
+    sleep in its device info (asked for or not) - each with a closing event in the chunk completing the connect phase, during the phase, and on the
+    established session (incl. a peer that falls silent: ping timeout)."""
+    S = L.default_spec
+    t0 = L.core_start()
+    idx = 0
+    for framing in ("plain", "noise"):
+        for dev in ({"hello_name": ""}, {"api_minor": 2}, {"api_minor": 12}, {"api_minor": 0}, {"device_info": {"has_deep_sleep": True}}):
+            for expected in (None, "dev"):
+                for ending in ("tail:peer_disconnect", "tail:eof", "tail:garbage", "eof-during-login", "silence", "peer_disconnect", "eof", "disconnect",
+                               "dinfo:bye", "dinfo:eof", "dinfo:garbage"):
+                    idx += 1
+                    if not ctx.mine(idx):
+                        continue
+                    kw: dict[str, Any] = {"framing": framing, "device": dict(dev), "expected_name": expected, "login": True, "password": "pw"}
+                    prog: list[list[Any]] = [["connect"], ["request", "device_info"], ["sleep", 150.0 if ending == "silence" else 3.0], ["disconnect"]]
+                    faults: list[dict[str, Any]] = []
+                    if ending.startswith("tail:"):
+                        kw["tail"] = ending[5:]
+                    elif ending.startswith("dinfo:"):
+                        # (whoever asks for the device info first - the application's request, or a connect step of the library's own - gets the
+                        #  answer and the hang-up in one chunk)
+                        kw["device"]["handlers"] = "device_info_then:" + ending[6:]
+                    elif ending == "eof-during-login":
+                        kw["device"]["answer_connect"] = False
+                        faults.append({"kind": "eof", "point": {"t": t0 + 0.5}, "posclass": "hello-content"})
+                    elif ending != "disconnect":
+                        faults.append({"kind": ending, "point": {"t": t0 + 2.0}, "posclass": "hello-content"})
+                    record(ctx, prop, run_spec(S(program=prog, faults=faults, **kw)), "hello-content")
 
 
 def keepalive_values_sweep(ctx: Ctx, prop: str) -> None:
